@@ -13,7 +13,7 @@ var profSchedPre = &Profile{
 	Kinds: []wk{{OpSet, 60}, {OpDel, 8}, {OpFlush, 14}, {OpEvict, 8}, {OpReopen, 8}, {OpSet, 2}},
 }
 
-const c05Rule = "harness-owned cooperative scheduler: 1 mutator (SetItem/Delete/Evict on collections a,b; a unique value per op), 1 flusher (0-3 Flush, file image captured right after each), 1-3 readers (Get, Min, Max, GetTotals, whole ascending/descending visits, Snapshot+full read+Close) run as goroutines of which exactly one runs at a time; control changes hands only at yield points (every StoreFile call, every visitor callback, gkvlite's verifYield points: after a version pin, before/after rootCAS, between collections inside Flush and Snapshot) according to a rapid-generated schedule; pre-state (loaded, flushed, evicted, re-opened) generated too. Oracle (post hoc, against the complete version log): every read result equals f(V) for ONE version V that could have been current inside the call's window; mutator calls never fail; final contents == last version; every captured flush image re-opens, per collection, to a version current during that Flush, with capture instants non-decreasing in collection-name order; no panic, no hang (watchdog). Non-trivial = >=1 reader window overlapping a mutation of the same collection and >=2 context switches; distinct by case hash."
+const c05Rule = "harness-owned cooperative scheduler: 1 mutator (SetItem/Delete/Evict on collections a,b; a unique value per op), 1 flusher (0-3 Flush, file image captured right after each), 1-3 readers (Get, Min, Max, GetTotals, key-only GetItem/Exist, whole ascending/descending visits with and without values, Snapshot+full read+Close) run as goroutines of which exactly one runs at a time; control changes hands only at yield points (every StoreFile call - before it starts and after it took effect -, every visitor callback, gkvlite's verifYield points: after a version pin, before/after rootCAS, between collections inside Flush and Snapshot, between the two reads of an itemLoc) according to a rapid-generated schedule; pre-state (loaded, flushed, evicted, re-opened) generated too. Oracle (post hoc, against the complete version log): every read result equals f(V) for ONE version V that could have been current inside the call's window; mutator calls never fail; final contents == last version; every captured flush image re-opens, per collection, to a version current during that Flush, with capture instants non-decreasing in collection-name order; no panic, no hang (watchdog). Non-trivial = >=1 reader window overlapping a mutation of the same collection and >=2 context switches; distinct by case hash."
 
 func genSchedCase() *rapid.Generator[Case] {
 	pre := GenCase(profSchedPre)
